@@ -4,7 +4,8 @@
 From Coq Require Import ZArith Reals Floats Bool.
 From Flocq Require Import Core BinarySingleNaN PrimFloat.
 From Coquelicot Require Import Complex.
-From PB Require Import Proofs.TwoSumExact Model.Phase2 Proofs.Floor Proofs.DayFrac Proofs.DayFrac3 Proofs.PhaseAdd Proofs.PhaseMore.
+From PB Require Import Proofs.TwoSumExact Model.Phase2 Proofs.Floor Proofs.DayFrac Proofs.DayFrac3 Proofs.PhaseAdd Proofs.PhaseMore
+  Proofs.DayFracTail Proofs.TwoProduct Proofs.PhaseMul.
 Open Scope R_scope.
 Notation fexp := (FLT_exp (-1074) 53).
 Notation rnd := (round radix2 fexp ZnearestE).
@@ -68,6 +69,38 @@ Theorem C07_neg_branch : forall a : ph, p_imag a = false ->
   op_neg a = let '(d, f) := day_frac (PrimFloat.opp (p_int a)) (PrimFloat.opp (p_frac a)) in RPh {| p_int := d; p_frac := f; p_imag := false |}.
 Proof. exact op_neg_real. Qed.
 
+(* error-free multiplication (astropy two_product = Veltkamp split + Dekker product): x = fl(a*b) and x + y = a*b exactly, for finite
+   doubles up to 2^400 whose product is 0 or at least 2^-969 in magnitude (no underflow) *)
+Theorem C07_two_product_exact : forall a b : PrimFloat.float,
+  fin a -> fin b -> Rabs (R_of a) <= bpow radix2 400 -> Rabs (R_of b) <= bpow radix2 400 ->
+  (R_of a * R_of b = 0 \/ bpow radix2 (-969) <= Rabs (R_of a * R_of b)) ->
+  let '(x, y) := two_product a b in
+  fin x /\ fin y /\ R_of x = rnd (R_of a * R_of b) /\ R_of x + R_of y = R_of a * R_of b.
+Proof. exact two_product_exact. Qed.
+(* the normalising tail of day_frac on its own: any finite (s, e) with |s| <= 2^52, |e| <= 1/2 *)
+Theorem C07_tail : forall s e : PrimFloat.float,
+  fin s -> fin e -> Rabs (R_of s) <= bpow radix2 52 -> Rabs (R_of e) <= / 2 ->
+  let '(d, f) := df_tail s e in
+  fin d /\ fin f /\ (exists k : Z, R_of d = IZR k) /\
+  Rabs (R_of d + R_of f - (R_of s + R_of e)) <= bpow radix2 (-53) /\ Rabs (R_of f) <= / 2 + bpow radix2 (-50).
+Proof. exact df_tail_sound. Qed.
+(* Phase * dimensionless number: within 2^-52 cycles of the exact product, normalised, for |product| <= 2^52 - 2 (phase and
+   factor zero or not absurdly small: no underflow inside the Dekker product) *)
+Theorem C07_mul : forall i f fac : PrimFloat.float,
+  fin i -> fin f -> fin fac ->
+  Rabs (R_of i) <= bpow radix2 52 -> Rabs (R_of f) <= / 2 -> Rabs (R_of fac) <= bpow radix2 400 ->
+  let V := R_of i + R_of f in
+  (V = 0 \/ bpow radix2 (-60) <= Rabs V) -> (R_of fac = 0 \/ bpow radix2 (-900) <= Rabs (R_of fac)) ->
+  Rabs (V * R_of fac) <= bpow radix2 52 - 2 ->
+  let '(d, g) := day_frac_gen i f (Some fac) None in
+  fin d /\ fin g /\ (exists k : Z, R_of d = IZR k) /\
+  Rabs (R_of d + R_of g - V * R_of fac) <= bpow radix2 (-52) /\ Rabs (R_of g) <= / 2 + bpow radix2 (-50).
+Proof. exact phase_mul_sound. Qed.
+Theorem C07_mul_branch : forall (a : ph) (fac : PrimFloat.float), p_imag a = false ->
+  op_mul a (NReal fac) =
+  let '(d, g) := day_frac_gen (p_int a) (p_frac a) (Some fac) None in RPh {| p_int := d; p_frac := g; p_imag := false |}.
+Proof. exact op_mul_real. Qed.
+
 (* imaginary phases, factors and divisors: the flag / sign rules of from_angles are complex multiplication and division *)
 Theorem C07_imag_factor : forall (a b : bool) (x f : R),
   Cmult (cplx a x) (cplx b f) = cplx (xorb a b) (x * (if b && a then - f else f)).
@@ -88,8 +121,8 @@ Theorem C07_from_angles_flags : forall v1 v2 fv (im imf : bool),
 Proof. exact from_angles_factor_flags. Qed.
 
 (* PARTIAL (not proved here, carried by the bit-exact correspondence + exact-rational monitor on every run):
-   multiplication / division by a dimensionless number within 2^-52 (needs Dekker's two_product exactness and the error
-   analysis of the carry / quotient-correction steps), |frac| <= 1/2 exactly at ties, floor-division / remainder / divmod. *)
+   division by a dimensionless number within 2^-52 (the quotient-correction steps), |frac| <= 1/2 exactly at ties, abs,
+   floor-division / remainder / divmod. *)
 
 Print Assumptions C07_two_sum_exact.
 Print Assumptions C07_floor.
@@ -97,6 +130,8 @@ Print Assumptions C07_construct.
 Print Assumptions C07_add.
 Print Assumptions C07_sub.
 Print Assumptions C07_neg.
+Print Assumptions C07_two_product_exact.
+Print Assumptions C07_mul.
 Print Assumptions C07_add_branch.
 Print Assumptions C07_imag_factor.
 Print Assumptions C07_from_angles_flags.
